@@ -447,11 +447,21 @@ pub fn main(args: &[String]) -> i32 {
 
     // ---- second engine (C18): Miri, many seeds
     let mut miri_json = serde_json::Value::Null;
-    if prop == "C18" && !args.iter().any(|a| a == "--no-miri") {
-        let seeds: u64 = arg(args, "--miri-seeds").and_then(|s| s.parse().ok()).unwrap_or(if tier == "thorough" { 512 } else { 32 });
-        let count: u64 = if tier == "thorough" { 8 } else { 6 };
+    // (sim, quick seeds, quick scenarios per seed, thorough seeds, thorough scenarios per seed)
+    let miri_plan: Option<(&str, u64, u64, u64, u64)> = match prop.as_str() {
+        "C18" => Some(("cache", 32, 6, 512, 8)),
+        "C13" => Some(("lazy", 0, 0, 96, 6)), // thorough tier only
+        _ => None,
+    };
+    if let (Some((msim, qs, qc, ts, tc)), false) = (miri_plan, args.iter().any(|a| a == "--no-miri")) {
+        let seeds: u64 = arg(args, "--miri-seeds").and_then(|s| s.parse().ok()).unwrap_or(if tier == "thorough" { ts } else { qs });
+        let count: u64 = if tier == "thorough" { tc } else { qc };
         let first = (seed % 4096) * 4096;
-        let m = miri_engine(&verif, "cache", first, seeds, count);
+        let m = if seeds == 0 {
+            MiriOutcome { seeds: 0, first_seed: first, scenarios_ok: 0, wall_s: 0.0, failing_seed: None, error_excerpt: vec![], harness_error: None }
+        } else {
+            miri_engine(&verif, msim, first, seeds, count)
+        };
         println!("miri engine: seeds {}..{} scenarios_ok={} wall={:.1}s failing_seed={:?}", first, first + seeds, m.scenarios_ok, m.wall_s, m.failing_seed);
         if let Some(e) = &m.harness_error {
             harness_errors.push(e.clone());
@@ -469,7 +479,7 @@ pub fn main(args: &[String]) -> i32 {
             };
             let rf = ReplayFile {
                 property: prop.clone(),
-                sim: "cache".into(),
+                sim: msim.into(),
                 config: "miri".into(),
                 seed,
                 run: fs as i64,
